@@ -220,6 +220,10 @@ type Cluster struct {
 	ExpectClientID string
 	// Mutate post-processes a response body before it is encoded (error injection)
 	Mutate func(r *Req, body rc.Msg) rc.Msg
+	// LibRange, when set, is the version range the sending stack declares for
+	// an api (requests outside the broker's range are only wrong when the two
+	// ranges overlap)
+	LibRange func(api int16) (lo, hi int16)
 	// CutExact: for r.Fault == "cut-exact", the number of response bytes to
 	// deliver before the connection ends, and whether it ends with RST (else EOF)
 	CutExact func(r *Req) (int, bool)
@@ -277,10 +281,27 @@ func (c *Cluster) AddTopic(name string, parts int, leaders func(p int) int32) *T
 	t := &Topic{Name: name}
 	for p := 0; p < parts; p++ {
 		l := leaders(p)
-		t.Parts = append(t.Parts, &Partition{Topic: name, ID: int32(p), Leader: l, Replicas: []int32{l}, ISR: []int32{l}})
+		rs := c.replicasFor(l)
+		t.Parts = append(t.Parts, &Partition{Topic: name, ID: int32(p), Leader: l, Replicas: rs, ISR: append([]int32(nil), rs...)})
 	}
 	c.Topics[name] = t
 	return t
+}
+
+// replicasFor builds a replica list in which the leader is deliberately not
+// the first entry when the cluster has more than one broker (a client that
+// confuses "first replica" with "leader" must be visible).
+func (c *Cluster) replicasFor(leader int32) []int32 {
+	if len(c.Brokers) < 2 {
+		return []int32{leader}
+	}
+	for i, b := range c.Brokers {
+		if b.ID == leader {
+			other := c.Brokers[(i+1)%len(c.Brokers)].ID
+			return []int32{other, leader}
+		}
+	}
+	return []int32{leader}
 }
 
 func (c *Cluster) Part(topic string, p int32) *Partition {
@@ -304,8 +325,8 @@ func (c *Cluster) TopicNames() []string {
 func (c *Cluster) MoveLeader(p *Partition, to int32) {
 	p.Leader = to
 	p.Epoch++
-	p.Replicas = []int32{to}
-	p.ISR = []int32{to}
+	p.Replicas = c.replicasFor(to)
+	p.ISR = append([]int32(nil), p.Replicas...)
 	c.S.Count("fault:leader-move")
 	// wake long-polling fetches so that they answer NotLeader
 	ws := p.waiters
@@ -548,6 +569,12 @@ func (b *Broker) handle(c *Conn, st *connState, r *Req) {
 	if cl.S.Failed() {
 		return
 	}
+	if r.Note == "unsupported-version" {
+		// a broker cannot even parse a version it does not know: it drops the connection
+		c.ServerReset()
+		st.busy = false
+		return
+	}
 	// SASL gate
 	if !st.authed && r.Hdr.APIKey != 18 && r.Hdr.APIKey != 17 && r.Hdr.APIKey != 36 {
 		cl.S.Fail("C18", "R1-before-auth", "conn c%d (%s) to broker %d: %s v%d request before authentication completed", c.ID, c.Owner, b.ID, r.API.Name, r.Hdr.APIVersion)
@@ -623,6 +650,14 @@ func (c *Cluster) checkHeader(b *Broker, cn *Conn, st *connState, r *Req) {
 	}
 	// ApiVersions v0 is always answered (it is how versions are discovered)
 	if r.Hdr.APIKey != 18 && (r.Hdr.APIVersion < vr[0] || r.Hdr.APIVersion > vr[1]) {
+		if c.LibRange != nil {
+			// only a violation when the sender's range overlaps the broker's
+			if lo, hi := c.LibRange(r.Hdr.APIKey); lo > vr[1] || hi < vr[0] {
+				c.S.Count("unsupported-version-no-overlap")
+				r.Note = "unsupported-version"
+				return
+			}
+		}
 		c.wireFail(cn, r, "C04", "R2-version", "%s v%d sent to broker %d which advertised [%d,%d]", r.API.Name, r.Hdr.APIVersion, b.ID, vr[0], vr[1])
 		return
 	}
